@@ -5,6 +5,7 @@ import ast
 
 from sa.analyses.base import RuleAnalysis
 from sa.analyses.buffers import assignments, deps, linear, yield_vars
+from sa.analyses.buffers import through_local
 from sa.db import AnalysisError, ClassInfo, FunctionInfo, dotted, mangle, norm_stmt, own_nodes
 from sa.flow import Interp, TestAtom, call_of
 
@@ -300,6 +301,18 @@ def check_fixed(eng, run):
                     probs.append("the configured limit does not bound the buffer size")
                 if "max(" in src and "__limit" in src:
                     probs.append("max(..., limit): the limit is a lower bound of the buffer size, a larger sizehint allocates more than the limit")
+        # separator framers: _buffered_readuntil() takes its limit from len(buffer), so the buffer *is* the limit - it must be
+        # exactly the configured limit (a smaller one rejects frames that are under the limit, a larger one defers the error)
+        bid = c.find_method("buffered_incremental_deserialize")
+        if bid is not None and any(isinstance(x, ast.Call) and _cname(x) == "_buffered_readuntil" for x in own_nodes(bid.node)):
+            hint = {a.arg for a in f.params()[1:]}
+            for a in allocs:
+                size = through_local(f, a.args[0]) if a.args else None
+                d = deps(f, size) if size is not None else set()
+                if d & hint:
+                    probs.append(f"the size depends on {sorted(d & hint)} but the separator scanner uses len(buffer) as the frame limit: frames under the configured limit are rejected when the hint is small")
+                elif not (isinstance(size, ast.Attribute) and (dotted(size) or "").endswith("__limit")):
+                    probs.append(f"the size `{ast.unparse(size) if size is not None else ''}` is not the configured limit itself although the separator scanner uses len(buffer) as the frame limit")
         for p in probs:
             run.finding("C07.fixed", f, f.node, f"{c.name}.create_deserializer_buffer: {p}")
         run.ob("C07.fixed", f"{c.name}.create_deserializer_buffer", not probs, has_limit=has_limit)
@@ -375,4 +388,18 @@ BENIGN = [
     Variant("read-until-hoist-limit", _RU, lambda fn: rename_local(fn, "buflen", "size"), why="local renamed"),
     Variant("raw-parse-rename", _RAW, lambda fn: rename_local(fn, "partial_document", "doc"), why="accumulator renamed"),
     Variant("scanner-rename-offset", _BRU, lambda fn: rename_local(fn, "sepidx", "idx"), why="local renamed"),
+]
+
+_AUTOA = "serializers.base_stream:AutoSeparatedPacketSerializer.create_deserializer_buffer"
+_LINEA = "serializers.line:StringLineSerializer.create_deserializer_buffer"
+MUTANTS += [
+    Variant("auto-allocator-follows-sizehint", _AUTOA, lambda fn: replace_expr(fn, "bytearray(self.__limit)", "bytearray(min(self.__limit, sizehint + len(self.__separator) + 1))"), "C07.fixed",
+            why="frames larger than the recv size hint but under the limit are rejected (seed C07-5)"),
+    Variant("line-allocator-floor-256", _LINEA, lambda fn: replace_expr(fn, "bytearray(self.__limit)", "bytearray(max(self.__limit, 256))"), "C07.fixed",
+            why="limits under 256 are silently replaced (seed C07-6)"),
+    Variant("json-split-compares-whole-chunk", "serializers.json:_JSONParser._split_partial_document", lambda fn: replace_expr(fn, "consumed > limit", "len(partial_document) > limit"), "C07.early",
+            why="a tiny frame followed by pipelined data is rejected (seed C07-4)"),
+]
+BENIGN += [
+    Variant("auto-allocator-via-local", _AUTOA, lambda fn: replace_stmt(fn, stmt_has("return bytearray(self.__limit)"), "size = self.__limit\nreturn bytearray(size)"), why="size through a local"),
 ]
